@@ -1,6 +1,7 @@
 package main
 
 import (
+	"encoding/json"
 	"fmt"
 	"os"
 
@@ -23,6 +24,21 @@ func main() {
 		return
 	case "replay":
 		os.Exit(checks.Replay(os.Args[2]))
+	case "call":
+		// vcheck call <registered call> <case json>...: runs one batch function in-process and prints its result
+		var cases []json.RawMessage
+		for _, a := range os.Args[3:] {
+			cases = append(cases, json.RawMessage(a))
+		}
+		raw, _ := json.Marshal(map[string]any{"cases": cases})
+		res, err := explore.Call(os.Args[2], raw)
+		if err != nil {
+			fmt.Fprintln(os.Stderr, "error:", err)
+			os.Exit(2)
+		}
+		b, _ := json.MarshalIndent(res, "", " ")
+		fmt.Println(string(b))
+		return
 	case "debug":
 		os.Exit(checks.DebugPath(os.Args[2], os.Args[3], os.Args[4]))
 	}
